@@ -1019,6 +1019,8 @@ class Interp:
             if v.name.endswith(('.r_', '.c_')):
                 # np.r_[...] builds a new array from its items
                 parts = list(k) if isinstance(k, tuple) else [k]
+                if v.name.endswith('.r_') and any(isinstance(x, Ext) for x in parts) and 'np.r_' in self.ctx.opts.get('prelude', {}):
+                    return self.ctx.opts['prelude']['np.r_'](self, parts)
                 if v.name.endswith('.r_') and all(isinstance(x, Vec) or (isinstance(x, (int, float)) and not isinstance(x, bool))
                                                   or (is_sym(x) and not z3.is_bool(x)) for x in parts):
                     out = Vec()
@@ -1076,6 +1078,8 @@ class Interp:
             return list(v)
         if isinstance(v, Obj) and '__iter__' in v.fields:
             return list(v.fields['__iter__'])
+        if isinstance(v, Ext) and hasattr(v, 'cx_iter'):
+            return v.cx_iter(self)
         if isinstance(v, NDArr):
             # rows of an array of unknown length: one representative row (provenance / aliasing only)
             self.ctx.event('iterate-array', store=v.store)
@@ -1490,6 +1494,11 @@ class Interp:
         raise Unsupported(f'attribute store on {type(o).__name__}')
 
     def setitem(self, o, k, v, node=None):
+        if isinstance(o, Ext):
+            r = o.cx_setitem(self, k, v) if hasattr(o, 'cx_setitem') else NotImplemented
+            if r is NotImplemented:
+                raise Unsupported('subscript store on extension value')
+            return
         if isinstance(o, dict):
             if is_sym(k) or isinstance(k, Opaque):
                 raise Unsupported('symbolic dict key store')
